@@ -26,7 +26,7 @@ ASSUMPTIONS = [
     "predicates are pure functions of the offered NodeTraversalInfo",
     "reference walker (20 lines) encodes the statement: pruned nodes are offered to filter, their descendants are not visited",
 ]
-MUST_SEE = ["children_read_twice_around_caller_mutation", "children_of_slotted_instances", "traversal_after_replace_with_equal_children", "falsy_callable_predicates", "positional_predicates", "late_defined_subclass", "prune_not_filter_with_desc", "falsy_children", "shared_objects", "bottom_up_with_prune", "gather_calls", "deep_chain", "deep_3000_traversals", "abandoned_traversals", "reentrant_predicates"]
+MUST_SEE = ["gather_with_empty_class_tuple", "children_read_twice_around_caller_mutation", "children_of_slotted_instances", "traversal_after_replace_with_equal_children", "falsy_callable_predicates", "positional_predicates", "late_defined_subclass", "prune_not_filter_with_desc", "falsy_children", "shared_objects", "bottom_up_with_prune", "gather_calls", "deep_chain", "deep_3000_traversals", "abandoned_traversals", "reentrant_predicates"]
 CONFIG = {
     "quick": {"shards": 16, "small_trees": 600, "exh_n": 4, "large_trees": 300, "watchdog_s": 300},
     "thorough": {"shards": 32, "small_trees": 400, "exh_n": 6, "large_trees": 250, "watchdog_s": 3000},
@@ -412,14 +412,16 @@ def run_shard(ctx):
             # gather
             classes = sorted({type(o).__name__ for o in objs}) + [f"{P}Expr", f"{P}Leaf"]
             for _ in range(3):
-                k = rng.randint(1, 2)
+                k = rng.randint(1, 2) if rng.random() < 0.9 else 0  # (an empty tuple of classes: instances of no class)
+                if k == 0:
+                    ctx.count("gather_with_empty_class_tuple")
                 cns = tuple(rng.sample(classes, min(k, len(classes))))
                 clss = tuple(U.cls[c] for c in cns)
                 exact = rng.random() < 0.5
                 use_extra = rng.random() < 0.5
                 use_prune = rng.random() < 0.7
                 del flog[:], plog[:]
-                arg = clss if (len(clss) > 1 or rng.random() < 0.5) else clss[0]
+                arg = clss if (len(clss) != 1 or rng.random() < 0.5) else clss[0]
                 got = list(
                     root.gather(arg, exact_type=exact, extra_filter=f_filter if use_extra else None, prune=f_prune if use_prune else None)
                 )
